@@ -178,7 +178,8 @@ var WithOverallContextMiddleware = WithPreRequest(func(w http.ResponseWriter, r 
 
 	switch r.Header.Get("Content-Encoding") {
 	case "":
-		// No encoding, do nothing
+		// No encoding: the body itself is bounded by the payload limit
+		r.Body = readColser{helpers.LimitDecoded(r.Body)}
 	case "gzip":
 		reader, err := gzip.NewReader(r.Body)
 		if err != nil {
